@@ -59,6 +59,12 @@ static int is_valid_index(const char *path, size_t *idx)
 		errno = EINVAL;
 		return 0;
 	}
+	/* the empty token is not an array index */
+	if (len == 0)
+	{
+		errno = EINVAL;
+		return 0;
+	}
 	/* leading zeros not allowed per RFC */
 	if (path[0] == '0')
 	{
